@@ -63,8 +63,15 @@ random.expovariate = fake_expovariate
 
 
 class Pot(object):
+    """stub potential: derivative returns the prescribed value and records its arguments"""
     number_separation_arguments = 1
     number_charge_arguments = 2
+    der = 0.0
+    calls = []
+
+    def derivative(self, velocity, separation, *charges):
+        Pot.calls.append([[f2b(x) for x in velocity], [f2b(x) for x in separation], [f2b(x) for x in charges]])
+        return Pot.der
 
 
 class Estimator(object):
@@ -156,13 +163,18 @@ def run_case(case):
             row = zs[0] if zs else 0
         elif isinstance(row, list):
             row = min(int(b2f(row[1]) * len(w._table)), len(w._table) - 1)
+        rel_node = leaf
+        while len(rel_node.value.identifier) > case["cell_level"]:
+            rel_node = rel_node.parent
+        active_cell = list(cells.position_to_cell(rel_node.value.position).identifier)
         Draw.row, Draw.u, Draw.e = row, b2f(q["u"]), b2f(q["e"])
         Draw.n_choice = Draw.n_uniform = Draw.n_expo = 0
         Draw.last_uniform = None
         Draw.beta_seen = None
-        res = {"row": row}
+        res = {"row": row, "active_cell": active_cell}
+        in_state = [root]
         try:
-            t, extra = handler.send_event_time([root])
+            t, extra = handler.send_event_time(in_state)
             res.update({"time": [f2b(t.quotient), f2b(t.remainder)], "target": list(extra[0].identifier),
                         "n_extra": len(extra), "ber": f2b(handler._bounding_event_rate),
                         "leaf_pos_after": [f2b(x) for x in leaf.value.position],
@@ -172,6 +184,40 @@ def run_case(case):
         res["uniform"] = None if Draw.last_uniform is None else f2b(Draw.last_uniform)
         res["calls"] = [Draw.n_choice, Draw.n_uniform, Draw.n_expo]
         res["beta_seen"] = None if Draw.beta_seen is None else f2b(Draw.beta_seen)
+        out_q = q.get("out")
+        if out_q is not None and "exc" not in res:
+            # LeafUnitCellVetoEventHandler.send_out_state: empty target cell (None) or a root-level target unit
+            Draw.n_uniform = 0
+            Draw.last_uniform = None
+            Pot.calls = []
+            vel_before = [f2b(x) for x in leaf.value.velocity]
+            o = {"vel_before": vel_before}
+            try:
+                if out_q["mode"] == "empty":
+                    st = handler.send_out_state(None)
+                    tnode = None
+                else:
+                    Pot.der = b2f(out_q["der"])
+                    Draw.u = b2f(out_q["uc"])
+                    tnode = Node(Unit(identifier=(1,), position=[b2f(x) for x in out_q["tpos"]],
+                                      charge={"q": b2f(out_q["tcharge"])}))
+                    st = handler.send_out_state(tnode)
+                o["same_list"] = st is in_state
+                o["state_ids"] = [list(n.value.identifier) for n in st]
+                o["active_vel"] = None if leaf.value.velocity is None else [f2b(x) for x in leaf.value.velocity]
+                o["active_stamp_none"] = leaf.value.time_stamp is None
+                if tnode is not None:
+                    tu = tnode.value
+                    o["target_vel"] = None if tu.velocity is None else [f2b(x) for x in tu.velocity]
+                    o["target_stamp"] = None if tu.time_stamp is None else [f2b(tu.time_stamp.quotient),
+                                                                            f2b(tu.time_stamp.remainder)]
+                    o["target_pos"] = [f2b(x) for x in tu.position]
+            except Exception as e:  # noqa
+                o["exc"] = exc_enum(e)
+            o["n_uniform"] = Draw.n_uniform
+            o["uniform"] = None if Draw.last_uniform is None else f2b(Draw.last_uniform)
+            o["pot_calls"] = Pot.calls
+            res["out"] = o
         out["queries"].append(res)
     setting.reset()
     return out
